@@ -101,3 +101,97 @@ where
 {
     Queries::new::<H, E, MerkleTree<H>>(mp, rows)
 }
+
+/// OOD patch: given a proof whose CONTEXT was edited (a field that is bound into the seed), recompute
+/// the seed-dependent challenges up to z and overwrite the first claimed constraint-composition
+/// value so that the out-of-domain consistency equation holds under the new seed. Out-of-domain
+/// values are unconstrained claims until the DEEP/FRI phase, so a real attacker can do exactly this;
+/// it carries the edited context past the OOD check into FriVerifier::new, the proof-of-work check,
+/// draw_integers and the opening checks. None = the edited proof no longer parses (nothing to patch).
+pub fn ood_patch<B, E, H>(proof: &Proof, spec: &SpecRef) -> Option<Proof>
+where
+    B: BaseFut,
+    E: FieldElement<BaseField = B>,
+    H: ElementHasher<BaseField = B>,
+{
+    use winter_air::proof::{OodFrame, QuotientOodFrame, TraceOodFrame};
+    use winter_air::EvaluationFrame;
+    let pub_inputs = GenPub::<B>::new(spec.clone());
+    let mut seed: Vec<B> = proof.context.to_elements();
+    seed.append(&mut pub_inputs.to_elements());
+    let air = GenAir::<B>::new(proof.trace_info().clone(), pub_inputs, proof.options().clone());
+    let mut coin = DefaultRandomCoin::<H>::new(&seed);
+    let fri_options = air.options().to_fri_options();
+    let lde = air.lde_domain_size();
+    let (tc, cc, _fc) = proof.commitments.clone().parse::<H>(air.trace_info().num_segments(), fri_options.num_fri_layers(lde)).ok()?;
+    coin.reseed(tc[0]);
+    let aux_rands = if air.trace_info().is_multi_segment() {
+        let r = air.get_aux_rand_elements::<E, _>(&mut coin).ok()?;
+        coin.reseed(tc[1]);
+        Some(r)
+    } else {
+        None
+    };
+    let coeffs = air.get_constraint_composition_coefficients::<E, _>(&mut coin).ok()?;
+    coin.reseed(cc);
+    let z = coin.draw::<E>().ok()?;
+    let mw = air.trace_info().main_trace_width();
+    let (ot, oq) = proof.ood_frame.clone().parse::<E>(mw, air.trace_info().aux_segment_width(), air.context().num_constraint_composition_columns()).ok()?;
+    let main_frame = ot.main_frame();
+    let aux_frame = ot.aux_frame();
+    // mirror of the verifier's constraint evaluation at z (public Air methods only)
+    let t_constraints = air.get_transition_constraints(&coeffs.transition);
+    let periodic: Vec<E> = air
+        .get_periodic_column_polys()
+        .iter()
+        .map(|poly| {
+            let num_cycles = air.trace_length() / poly.len();
+            winter_math::polynom::eval(poly, z.exp_vartime((num_cycles as u32).into()))
+        })
+        .collect();
+    let mut t1 = vec![E::ZERO; t_constraints.num_main_constraints()];
+    air.evaluate_transition(&main_frame, &periodic, &mut t1);
+    let mut t2 = vec![E::ZERO; t_constraints.num_aux_constraints()];
+    if let Some(af) = &aux_frame {
+        air.evaluate_aux_transition(&main_frame, af, &periodic, aux_rands.as_ref()?, &mut t2);
+    }
+    let mut rhs = t_constraints.combine_evaluations::<E>(&t1, &t2, z);
+    let b = air.get_boundary_constraints(aux_rands.as_ref(), &coeffs.boundary);
+    for g in b.main_constraints() {
+        rhs += g.evaluate_at(main_frame.current(), z);
+    }
+    if let Some(af) = &aux_frame {
+        for g in b.aux_constraints() {
+            rhs += g.evaluate_at(af.current(), z);
+        }
+    }
+    let _: Option<EvaluationFrame<E>> = None;
+    // solve for the first composition column's claimed value
+    let mut cur = oq.current_row().to_vec();
+    let n = air.trace_length();
+    let mut rest = E::ZERO;
+    for (i, v) in cur.iter().enumerate().skip(1) {
+        rest += z.exp_vartime(((i * n) as u32).into()) * *v;
+    }
+    cur[0] = rhs - rest;
+    let mut frame = OodFrame::default();
+    frame.set_trace_states(&TraceOodFrame::new(ot.current_row().to_vec(), ot.next_row().to_vec(), mw));
+    frame.set_quotient_states(&QuotientOodFrame::new(cur, oq.next_row().to_vec()));
+    let mut p = proof.clone();
+    p.ood_frame = frame;
+    // the attacker also re-grinds the proof-of-work nonce for the new transcript
+    let (ot2, oq2) = p.ood_frame.clone().parse::<E>(mw, air.trace_info().aux_segment_width(), air.context().num_constraint_composition_columns()).ok()?;
+    coin.reseed(H::hash_elements(&merge_ood_evaluations(&ot2, &oq2)));
+    let _deep = air.get_deep_composition_coefficients::<E, _>(&mut coin).ok()?;
+    for c in &_fc {
+        coin.reseed(*c);
+        let _alpha = coin.draw::<E>().ok()?;
+    }
+    let g = air.options().grinding_factor();
+    if g <= 16 {
+        if let Some(nonce) = (1..1u64 << 22).find(|n| coin.check_leading_zeros(*n) >= g) {
+            p.pow_nonce = nonce;
+        }
+    }
+    Some(p)
+}
